@@ -21,6 +21,7 @@ inductive Err
   | FOAR0001   -- division by zero
   | FOAR0002   -- numeric operation overflow/underflow
   | XPTY0004 | XPST0017 | FOCA0002 | other
+  | XPST0005   -- static typing: the expression is known to be the empty sequence (may be raised)
   deriving DecidableEq, Repr, Inhabited
 
 /-- value space of xs:double (and of xs:float): XSD 1.1 part 2 §3.3.5 -/
@@ -360,6 +361,19 @@ def XVal.num10 : XVal → Dbl
   | .decimal q => if q = 0 then .zero false else .fin q
   | .float d => d
   | .double d => d
+
+/-! ### empty-sequence operands.  XPath 3.1 §3.5 (arithmetic expressions): "If the atomized operand is an
+empty sequence, the result of the arithmetic expression is an empty sequence"; F&O 4.4: fn:abs … "If $arg is
+the empty sequence, the function returns the empty sequence".  `none` is the empty sequence. -/
+
+def specBinE (R : Rounding) (op : BinOp) (a b : Option XVal) : Except Err (Option XVal) :=
+  match a, b with
+  | some x, some y => (specBin R op x y).map some
+  | _, _ => pure none
+
+def specUnE (R : Rounding) (op : UnOp) : Option XVal → Option XVal
+  | some x => some (specUn R op x)
+  | none => none
 
 /-! ### a concrete round-to-nearest-even, for the driver only (validated by the correspondence
 check against the hardware; no theorem depends on it) -/
